@@ -8,7 +8,7 @@ from ..oracle import run
 from . import _diff
 
 ID = "C02"
-USE = ("tok", "sub", "asdl", "lay", "edit", "chr")
+USE = ("tok", "sub", "asdl", "lay", "edit", "chr", "spell")
 VOCABS = ("expr", "stmt", "defs", "match", "lit")
 ENGINE = "E-TOK + E-SUB + E-ASDL(rejected) + E-LAY + E-EDIT, accept/raise verdict against ast.parse"
 RULE = (
